@@ -20,7 +20,13 @@ for p in claimed:
 if bad:
     sys.stderr.write("forbidden constructs: %s\n" % bad)
     sys.exit(1)
-print(" ".join("Props/%s.vo" % p for p in claimed))
+subs = ["C01M"]   # sub-checks (their theorems file is built and re-checked by the parent property's check)
+for p in subs:
+    bad += common.scan_forbidden(common.closure_files(p))
+if bad:
+    sys.stderr.write("forbidden constructs: %s\n" % bad)
+    sys.exit(1)
+print(" ".join("Props/%s.vo" % p for p in claimed + subs))
 PY
 )
 cd coq
